@@ -186,13 +186,15 @@ func c16Build(kind string) *c16Prog {
 			return mnemIs(al, ".string") && same(c, al.Rest, "\"inline$\"")
 		}, func() []int { return []int{hs.Line + 1} }}}, cp.expects...)
 		cp.prog = &Program{Atoms: atoms, Tops: []interface{}{hs, text, mov, mart, ms}}
-	case "raw-empty", "raw-blank", "raw-crlf":
+	case "raw-empty", "raw-blank", "raw-crlf", "unicode-line-separators":
 		// edge layouts of raw blocks: only transparency, marker form, path and
 		// range are asserted (no per-line expectation)
 		text := map[string]string{
 			"raw-empty": "raw ``",
 			"raw-blank": "raw `\n\n\n`",
 			"raw-crlf":  "raw `\r\nfirst\r\nsecond\r\n`\r",
+			// U+2028 / U+2029 / U+0085 / form feed do not end a source line
+			"unicode-line-separators": "# a comment\u2028with\u2029separators\u0085\f\nraw `\none\u2028two`\ntext Zt { \"a\u2029b$\" }",
 		}[kind]
 		cp.prog = &Program{Atoms: atoms, Tops: []interface{}{&TopRaw{Text: text}, &Script{Name: sname, Body: []Stmt{newCmd()}}}}
 	case "raw-same-line", "raw-next-line":
@@ -423,13 +425,13 @@ func matchKnownC16(k *KnownFinding, f *Finding) bool {
 // RunC16 is the check of property C16.
 func RunC16(env *Env, rep *Report) {
 	var cases []*Case
-	for _, kind := range []string{"script", "autovar", "data", "raw-same-line", "raw-next-line", "raw-empty", "raw-blank", "raw-crlf"} {
+	for _, kind := range []string{"script", "autovar", "data", "raw-same-line", "raw-next-line", "raw-empty", "raw-blank", "raw-crlf", "unicode-line-separators"} {
 		cases = append(cases, c16Case(kind, "concrete"))
 	}
 	cases = append(cases, c16Case("script", "atom"), c16Case("data", "backslash"))
 	if env.Tier == "thorough" {
 		// every program under every kind of path
-		for _, kind := range []string{"script", "autovar", "data", "raw-same-line", "raw-next-line", "raw-empty", "raw-blank", "raw-crlf"} {
+		for _, kind := range []string{"script", "autovar", "data", "raw-same-line", "raw-next-line", "raw-empty", "raw-blank", "raw-crlf", "unicode-line-separators"} {
 			for _, pk := range []string{"atom", "backslash"} {
 				if (kind == "script" && pk == "atom") || (kind == "data" && pk == "backslash") {
 					continue // already in the quick list
